@@ -109,6 +109,7 @@ class World:
         self._ticks = 0
         self.observed_owner = {}
         self.last_size = {}
+        self.last_write = {}
         self.shadow = {}
         self.inv_count = 0
         self.sock_path = os.path.join(self.side, "sock")
